@@ -40,6 +40,8 @@ type dworldCfg struct {
 	NoSyncHook    bool
 	NoHooks       bool
 	IgnoreStatus  bool
+	// IgnoreStatusExcept: targets (by resource name) whose rule gets the opposite of IgnoreStatus
+	IgnoreStatusExcept map[string]bool
 }
 
 type dworld struct {
@@ -86,7 +88,7 @@ func (c dworldCfg) decoratorController(h *sim.HookSite) *v1alpha1.DecoratorContr
 		rule.Resource = t.Resource
 		rule.LabelSelector = c.LabelSel
 		rule.AnnotationSelector = c.AnnotationSel
-		if c.IgnoreStatus {
+		if c.IgnoreStatus != c.IgnoreStatusExcept[t.Resource] {
 			tr := true
 			rule.IgnoreStatusChanges = &tr
 		}
